@@ -58,12 +58,18 @@ extern MPT_STRUCT(buffer) *mpt_array_reserve(MPT_STRUCT(array) *arr, size_t len,
 				used -= used % old->size;
 			}
 			/* compatible content is kept completely */
-			if ((old == traits)
-			 && !(flags & MPT_ENUM(BufferNoCopy))
-			 && !(old && old->fini && !old->init)) {
-				copy = 1;
-				if (used > len) {
-					len = used;
+			if (old == traits) {
+				if (!(flags & MPT_ENUM(BufferNoCopy))
+				 && !(old && old->fini && !old->init)) {
+					copy = 1;
+					if (used > len) {
+						len = used;
+					}
+				}
+				/* content that can not be copied must not get lost */
+				else if (used) {
+					errno = ENOTSUP;
+					return 0;
 				}
 			}
 		}
